@@ -556,6 +556,184 @@ static bool ST_WIDE = false;
 static bool ST_LONG = false; // reset T: the op lines carry `long` values; oracle = the rule of stimer.c on 128-bit integers
 static __int128 ST_VSTART = 0, ST_VIV = 0; // the unbounded values the stimer fields stand for (reset S)
 
+
+// ---------------------------------------------------------------------------
+// round 3: igris::delegate<void, int> on its own (reset D) - the delegate invoked is the one stored, with its
+// argument, exactly once.  Targets: plain functions F1..F3, member functions (two non-virtual, one virtual) of
+// objects O1..O3, external functions X1..X3 with an object pointer (possibly null), functor objects L1..L2.
+//   dnew <slot> 0 | f <k> | m <obj> <k> | x <k> <obj> | l <k>      construct (default / function / method / extfunction / functor)
+//   dcopy <a> <b>  (copy constructor + operator=)   dmove <a> <b>  (move assignment)   dclean <a>
+//   dinv <a> <arg>    invoke      dreset <a> <arg>   invoke_and_reset      deq <a> <b>   operator==
+//   dtim <a> <arg> <n>   the delegate inside a timer<int>(dlg, arg) planned at (0,1): exec(n) -> n callbacks
+// result: "a=<armed> c=<call records>"; a call record is F<k>(<arg>) | M<obj>.<k>(<arg>) | X<k>[<obj>](<arg>) | L<k>(<arg>)
+// oracle: a shadow description of every slot kept by the harness (never derived from the delegate's own fields)
+// ---------------------------------------------------------------------------
+static std::string DCALLS;
+static void dfn1(int a) { DCALLS += "F1(" + std::to_string(a) + ")"; }
+static void dfn2(int a) { DCALLS += "F2(" + std::to_string(a) + ")"; }
+static void dfn3(int a) { DCALLS += "F3(" + std::to_string(a) + ")"; }
+struct dbase { virtual ~dbase() {} int pad = 7; };
+struct dobj : dbase
+{
+    int id = 0;
+    int magic = 0x600d;
+    void m1(int a) { if (magic != 0x600d) abort(); DCALLS += "M" + std::to_string(id) + ".1(" + std::to_string(a) + ")"; }
+    void m2(int a) { if (magic != 0x600d) abort(); DCALLS += "M" + std::to_string(id) + ".2(" + std::to_string(a) + ")"; }
+    virtual void m3(int a) { if (magic != 0x600d) abort(); DCALLS += "M" + std::to_string(id) + ".3(" + std::to_string(a) + ")"; }
+};
+static dobj DOBJ[4];
+static void dext(int k, void *o, int a)
+{
+    int oid = 0;
+    for (int i = 1; i <= 3; i++) if (o == (void *)&DOBJ[i]) oid = i;
+    if (o != nullptr && oid == 0) abort();
+    DCALLS += "X" + std::to_string(k) + "[" + std::to_string(oid) + "](" + std::to_string(a) + ")";
+}
+static void dx1(void *o, int a) { dext(1, o, a); }
+static void dx2(void *o, int a) { dext(2, o, a); }
+static void dx3(void *o, int a) { dext(3, o, a); }
+struct dfun1 { int magic = 0xf1; void operator()(int a) { if (magic != 0xf1) abort(); DCALLS += "L1(" + std::to_string(a) + ")"; } };
+struct dfun2 { int magic = 0xf2; void operator()(int a) { if (magic != 0xf2) abort(); DCALLS += "L2(" + std::to_string(a) + ")"; } };
+static dfun1 DF1;
+static dfun2 DF2;
+typedef igris::delegate<void, int> dlg_t;
+static const int DSLOTS = 4;
+static dlg_t *DSL[DSLOTS];
+struct dshadow { char kind = '0'; int k = 0, obj = 0; };
+static dshadow DSH[DSLOTS];
+static bool D_MODE = false;
+static std::string dexpect(const dshadow &h, int a)
+{
+    std::string A = "(" + std::to_string(a) + ")";
+    switch (h.kind)
+    {
+    case 'f': return "F" + std::to_string(h.k) + A;
+    case 'm': return "M" + std::to_string(h.obj) + "." + std::to_string(h.k) + A;
+    case 'x': return "X" + std::to_string(h.k) + "[" + std::to_string(h.obj) + "]" + A;
+    case 'l': return "L" + std::to_string(h.k) + A;
+    default: return "";
+    }
+}
+static void d_reset()
+{
+    for (int i = 0; i < DSLOTS; i++) { delete DSL[i]; DSL[i] = new dlg_t(); DSH[i] = dshadow(); }
+    for (int i = 0; i < 4; i++) DOBJ[i].id = i;
+}
+static void d_op(const std::vector<std::string> &w, out &o)
+{
+    const std::string &op = w[0];
+    auto N = [&](size_t k) { return atoi(w[k].c_str()); };
+    int a = N(1);
+    if (a < 0 || a >= DSLOTS) { o.result = "bad-op"; o.fail("slot"); return; }
+    auto show = [&](int s, const std::string &calls) { return std::string("a=") + (DSL[s]->armed() ? "1" : "0") + " c=" + (calls.empty() ? "-" : calls); };
+    auto armed_ok = [&](int s) {
+        if (DSL[s]->armed() != (DSH[s].kind != '0')) o.fail("armed() differs from what was stored");
+        if ((bool)*DSL[s] != (DSH[s].kind != '0')) o.fail("operator bool differs from what was stored");
+    };
+    if (op == "dnew")
+    {
+        delete DSL[a];
+        dshadow h;
+        h.kind = w[2][0];
+        if (h.kind == '0') DSL[a] = new dlg_t();
+        else if (h.kind == 'f')
+        {
+            h.k = N(3);
+            DSL[a] = new dlg_t(h.k == 1 ? dfn1 : h.k == 2 ? dfn2 : dfn3);
+            o.tag("dlg-function");
+        }
+        else if (h.kind == 'm')
+        {
+            h.obj = N(3); h.k = N(4);
+            DSL[a] = new dlg_t(h.k == 1 ? igris::make_delegate(&dobj::m1, &DOBJ[h.obj]) : h.k == 2 ? igris::make_delegate(&dobj::m2, &DOBJ[h.obj]) : igris::make_delegate(&dobj::m3, &DOBJ[h.obj]));
+            o.tag(h.k == 3 ? "dlg-virtual-method" : "dlg-method");
+        }
+        else if (h.kind == 'x')
+        {
+            h.k = N(3); h.obj = N(4);
+            DSL[a] = new dlg_t(h.k == 1 ? dx1 : h.k == 2 ? dx2 : dx3, h.obj ? (void *)&DOBJ[h.obj] : nullptr);
+            o.tag(h.obj ? "dlg-extfunction" : "dlg-extfunction-null-object");
+        }
+        else if (h.kind == 'l')
+        {
+            h.k = N(3);
+            DSL[a] = h.k == 1 ? new dlg_t(DF1) : new dlg_t(DF2);
+            o.tag("dlg-functor");
+        }
+        else { DSL[a] = new dlg_t(); o.result = "bad-op"; o.fail("kind"); return; }
+        DSH[a] = h;
+        armed_ok(a);
+        o.result = show(a, "");
+        return;
+    }
+    if (op == "dcopy" || op == "dmove")
+    {
+        int b = N(2);
+        if (op == "dcopy")
+        {
+            dlg_t tmp(*DSL[b]); // copy constructor
+            *DSL[a] = tmp;      // operator=
+            o.tag("dlg-copy");
+        }
+        else
+        {
+            dlg_t tmp(*DSL[b]);
+            *DSL[a] = std::move(tmp);
+            o.tag("dlg-move");
+        }
+        DSH[a] = DSH[b];
+        armed_ok(a);
+        o.result = show(a, "");
+        return;
+    }
+    if (op == "dclean") { DSL[a]->clean(); DSH[a] = dshadow(); armed_ok(a); o.result = show(a, ""); o.tag("dlg-clean"); return; }
+    if (op == "dinv" || op == "dreset")
+    {
+        int arg = N(2);
+        DCALLS.clear();
+        std::string want = dexpect(DSH[a], arg);
+        if (op == "dinv") { (*DSL[a])(arg); DSL[a]->invoke(arg); want += want; }
+        else { DSL[a]->invoke_and_reset(N(2)); DSH[a] = dshadow(); o.tag("dlg-invoke-and-reset"); }
+        if (DCALLS != want) o.fail("the delegate did not call exactly what was stored, once, with its argument: got '" + DCALLS + "' want '" + want + "'");
+        armed_ok(a);
+        o.tag(want.empty() ? "dlg-invoke-unarmed" : "dlg-invoke");
+        o.result = show(a, DCALLS);
+        return;
+    }
+    if (op == "deq")
+    {
+        int b = N(2);
+        bool e = *DSL[a] == *DSL[b];
+        bool want = DSH[a].kind == DSH[b].kind && DSH[a].k == DSH[b].k && DSH[a].obj == DSH[b].obj;
+        if (e != want) o.fail("operator== differs from 'same target'");
+        o.result = e ? "1" : "0";
+        o.tag(e ? "dlg-eq" : "dlg-ne");
+        return;
+    }
+    if (op == "dtim")
+    {
+        // the delegate as the callback of a timer: one call per due deadline, each with the timer's argument
+        int arg = N(2), n = N(3);
+        DCALLS.clear();
+        {
+            igris::timer_manager mgr;
+            igris::timer<int> tim(*DSL[a], (int)arg);
+            mgr.plan(tim, 0, 1);
+            mgr.exec(n);
+            if (n >= 1 && (!tim.is_planned() || tim.finish() != n + 1)) o.fail("timer with this delegate is not re-armed one interval after the last deadline");
+            tim.unplan();
+        }
+        std::string want;
+        for (int q = 0; q < n; q++) want += dexpect(DSH[a], arg);
+        if (DCALLS != want) o.fail("timer callbacks: the stored delegate was not called exactly once per due deadline with the timer's argument");
+        o.tag("dlg-in-timer");
+        o.result = show(a, DCALLS);
+        return;
+    }
+    o.result = "bad-op";
+    o.fail("unknown op");
+}
+
 static void run_op(const std::vector<std::string> &w, const std::string &, hv::out &o_)
 {
     out o(o_);
@@ -565,6 +743,8 @@ static void run_op(const std::vector<std::string> &w, const std::string &, hv::o
     if (op == "reset")
     {
         drop_world();
+        D_MODE = w[1] == "D";
+        if (D_MODE) { d_reset(); o.result = "ok"; return; }
         if (w[1] == "s" || w[1] == "S" || w[1] == "T")
         {
             memset(&ST, 0, sizeof ST);
@@ -602,6 +782,7 @@ static void run_op(const std::vector<std::string> &w, const std::string &, hv::o
         return;
     }
     W_.o = &o;
+    if (D_MODE) { d_op(w, o); return; }
     static const std::set<std::string> mgr_ops = {"plan", "plan1", "unplan", "sets", "seti", "replan", "destroy", "dropmgr", "qmin", "q", "exec"};
     if (mgr_ops.count(op) && !W_.t)
     {
@@ -1871,6 +2052,91 @@ static void gen_nested_case(hv::rng &r)
     }
 }
 
+// ---------------------------------------------------------------------------
+// round 3: 3 timers, EVERY sequence of four callback actions (the k-th callback of the exec, k = 0..3, whichever
+// timer it belongs to, performs one of: nothing | unplan j | plan j with a deadline after now | plan j with a
+// deadline at / before now (j runs again in this exec), j in {0,1,2}: 10^4 sequences) over two configurations
+// (three EQUAL deadlines; staggered deadlines), followed by an exec with the time going BACKWARDS, an exec at the
+// same time, and an exec that jumps many periods ahead.  thorough: all 20000; quick: a random tenth.
+// ---------------------------------------------------------------------------
+static void gen_exhaustive3(hv::rng &r, bool th)
+{
+    const i64 now = 6;
+    auto actstr = [&](int a, int k) -> std::string {
+        if (a == 0) return "";
+        int j = (a - 1) / 3, kind = (a - 1) % 3;
+        std::string sel = "*@" + S(k) + ":";
+        if (kind == 0) return sel + "u" + S(j);
+        if (kind == 1) return sel + "p" + S(j) + "." + S(now - 1) + "." + S(2 + j); // deadline now+1+j
+        return sel + "p" + S(j) + "." + S(now - 3 - k) + ".3";                         // deadline now-k: at or before now
+    };
+    for (int cfg = 0; cfg < 2; cfg++)
+        for (int code = 0; code < 10000; code++)
+        {
+            if (!th && !r.chance(5)) continue;
+            int a[4] = {code % 10, code / 10 % 10, code / 100 % 10, code / 1000};
+            emit("reset 3");
+            if (cfg == 0) { emit("plan 0 0 4"); emit("plan 1 1 3"); emit("plan 2 2 2"); }   // three deadlines 4 (FIFO 0,1,2)
+            else { emit("plan 2 0 3"); emit("plan 0 1 4"); emit("plan 1 0 6"); }            // deadlines 3, 5, 6
+            std::string rules;
+            for (int k = 0; k < 4; k++)
+            {
+                std::string x = actstr(a[k], k);
+                if (x.empty()) continue;
+                if (!rules.empty()) rules += ";";
+                rules += x;
+            }
+            if (rules.empty()) rules = "-";
+            emit("exec " + S(now) + " " + rules);
+            emit("exec " + S(now - 2) + " " + rules); // time goes backwards: nothing may run
+            emit("exec " + S(now) + " -");
+            emit("exec " + S(now + 100) + " -");      // many periods missed: one firing per period, no drift
+        }
+}
+
+static void gen_delegate(hv::rng &r, bool th)
+{
+    // every kind once, invoked, copied, compared, reset, inside a timer
+    emit("reset D");
+    emit("dinv 0 5");
+    emit("dnew 0 f 1"); emit("dinv 0 7");
+    emit("dnew 1 m 2 1"); emit("dinv 1 -3");
+    emit("dnew 2 m 3 3"); emit("dinv 2 9");
+    emit("dnew 3 x 2 1"); emit("dinv 3 11");
+    emit("deq 0 1"); emit("dcopy 0 1"); emit("deq 0 1"); emit("dinv 0 4");
+    emit("dnew 1 x 1 0"); emit("dinv 1 2");
+    emit("dnew 2 l 1"); emit("dinv 2 13"); emit("dtim 2 6 3");
+    emit("dreset 2 8"); emit("dinv 2 8"); emit("dreset 2 8");
+    emit("dtim 0 21 4"); emit("dtim 3 22 2"); emit("dtim 2 23 2");
+    emit("dmove 3 1"); emit("dinv 3 1"); emit("dclean 3"); emit("dinv 3 1");
+    for (int c = 0; c < (th ? 3000 : 250); c++)
+    {
+        emit("reset D");
+        int len = (int)r.range(4, 18);
+        for (int q = 0; q < len; q++)
+        {
+            unsigned m = (unsigned)r.below(100);
+            int a = (int)r.below(4), b = (int)r.below(4);
+            int arg = (int)r.pick(std::vector<i64>{0, 1, -1, 7, 2147483647, -2147483647 - 1, 1000});
+            if (m < 30)
+            {
+                unsigned k = (unsigned)r.below(100);
+                if (k < 10) emit("dnew " + S(a) + " 0");
+                else if (k < 35) emit("dnew " + S(a) + " f " + S(r.range(1, 3)));
+                else if (k < 65) emit("dnew " + S(a) + " m " + S(r.range(1, 3)) + " " + S(r.range(1, 3)));
+                else if (k < 88) emit("dnew " + S(a) + " x " + S(r.range(1, 3)) + " " + S(r.range(0, 3)));
+                else emit("dnew " + S(a) + " l " + S(r.range(1, 2)));
+            }
+            else if (m < 42) emit(std::string(r.chance(60) ? "dcopy " : "dmove ") + S(a) + " " + S(b));
+            else if (m < 46) emit("dclean " + S(a));
+            else if (m < 72) emit("dinv " + S(a) + " " + S(arg));
+            else if (m < 80) emit("dreset " + S(a) + " " + S(arg));
+            else if (m < 90) emit("deq " + S(a) + " " + S(b));
+            else emit("dtim " + S(a) + " " + S(arg) + " " + S(r.range(0, 5)));
+        }
+    }
+}
+
 static void gen_extensions(hv::rng &r, bool th)
 {
     gen_wrap_directed();
@@ -1884,7 +2150,9 @@ static void gen_extensions(hv::rng &r, bool th)
     gen_stimer_wide(r, th ? 3000 : 400);
     gen_stimer_long(r, th);
     gen_signed(r, th);
+    gen_delegate(r, th);
     gen_nested_directed();
+    gen_exhaustive3(r, th);
     for (int c = 0; c < (th ? 6000 : 600); c++) gen_nested_case(r);
 }
 
